@@ -37,14 +37,26 @@ class Builder:
         self.log = log
         self.gone = []       # abstract names that were features once and are not any more (removed, renamed away)
 
-    def _event(self, h):
+    def _event(self, h, out='value'):
         if not self.log:
             return
         post, anom = project(self.model, self.naming)
         self.events.append({'a': h['a'], 'args': {k: v for k, v in h.items() if k != 'a'},
-                            'out': 'value', 'post': post, 'anom': anom})
+                            'out': out, 'post': post, 'anom': anom})
 
     def step(self, h):
+        """One call of the history.  When events are logged, a call that raises is an event with out = error:<class>
+        (judged by C03.build.total); otherwise the exception propagates."""
+        out = 'value'
+        try:
+            self._apply(h)
+        except Exception as exc:
+            if not self.log or self.model is None:
+                raise
+            out = 'error:' + type(exc).__name__
+        self._event(h, out)
+
+    def _apply(self, h):
         a = h['a']
         nm = self.naming
         if a == 'NewModel':
@@ -69,7 +81,7 @@ class Builder:
             self.objs[h['f']].add_attribute(
                 Attribute(nm.conc(h['n']), undomtok(h['dom']), untok(h['val']), untok(h['nul'])))
         elif a == 'AddConstraint':
-            self.model.ctcs.append(Constraint(h['n'], AST(build_node(h['ast'], nm))))
+            self.model.ctcs.append(Constraint(nm.conc_ctc(h['n']), AST(build_node(h['ast'], nm))))
         elif a == 'ReplaceConstraint':
             self.model.ctcs[-1].ast = AST(build_node(h['ast'], nm))
         # ---- in-place edits through public attributes and methods
@@ -96,13 +108,24 @@ class Builder:
             target = self.objs[h['o2']]
             target.relations[h['ri2'] - 1].add_child(f)
             f.parent = target
+        elif a == 'EditReown':
+            old, new = self.objs[h['o']], self.objs[h['o2']]
+            rel = old.relations[h['ri'] - 1]
+            old.relations.remove(rel)
+            rel.parent = new
+            new.add_relation(rel)
         elif a == 'EditImport':
             sub = Feature('Imported sub-model root')
-            self.model.import_model(sub, self.model.root, [Constraint(c['name'], AST(build_node(c['ast'], nm))) for c in h['ctcs']])
+            self.model.import_model(sub, self.model.root, [Constraint(nm.conc_ctc(c['name']), AST(build_node(c['ast'], nm))) for c in h['ctcs']])
         elif a == 'EditAbstract':
             self.objs[h['f']].is_abstract = not self.objs[h['f']].is_abstract
         elif a == 'EditAttrVal':
             self.objs[h['f']].get_attributes()[h['k'] - 1].set_default_value(untok(h['val']))
+        elif a == 'EditAttrName':
+            self.objs[h['f']].get_attributes()[h['k'] - 1].set_name(nm.conc(h['n']))
+        elif a == 'EditRemoveAttr':
+            f = self.objs[h['f']]
+            f.set_attributes([x for i, x in enumerate(f.get_attributes()) if i != h['k'] - 1])
         elif a == 'EditRemoveCtc':
             self.model.ctcs.pop(h['i'] - 1)
         elif a == 'EditCtcOp':
@@ -114,7 +137,6 @@ class Builder:
             self.objs[h['n']] = f
         else:
             raise ValueError('unknown builder action ' + a)
-        self._event(h)
 
     def run(self, hist):
         for h in hist:
@@ -127,8 +149,13 @@ class Builder:
         keep, self.log = self.log, False
         out = 'value'
         try:
+<<<<<<< HEAD
             self.step(h)
         except (IndexError, KeyError, ValueError, AttributeError) as exc:
+=======
+            self._apply(h)
+        except Exception as exc:
+>>>>>>> dev2
             out = 'error:' + type(exc).__name__
         self.log = keep
         post, anom = project(self.model, self.naming)
@@ -194,7 +221,7 @@ def build_from_model(m, naming, strategy='none'):
     nm_ctc = naming
     if strategy == 'casectc':
         nm_ctc = CaseSwapped(naming)
-    ctcs = [Constraint(c['name'], AST(build_node(c['ast'], nm_ctc))) for c in _perm(m['ctcs'], cp)]
+    ctcs = [Constraint(naming.conc_ctc(c['name']), AST(build_node(c['ast'], nm_ctc))) for c in _perm(m['ctcs'], cp)]
     return FeatureModel(objs[m['root']], ctcs), objs
 
 
